@@ -1305,10 +1305,16 @@ def inferred_dtype_stores(rep, S, f, rule="DTYPE.inferred-target"):
                         "is integer- or boolean-valued the stored real value is truncated silently" % fmt(r)[:80])
         # a working array shaped like the caller's weight matrix but given an integer / boolean dtype explicitly, receiving that matrix's own entries:
         # real weights are truncated (0.4 -> 0: the edge is gone)
-        if isinstance(r, tuple) and len(r) == 4 and r[0] == "ext" and r[1] in ("numpy.zeros_like", "numpy.empty_like", "numpy.full_like", "numpy.ones_like") and r[2] and \
-                r[2][0][0] == "param" and r[2][0][1] in WEIGHT_PARAMS and not f.name.startswith("_"):
+        like_ = isinstance(r, tuple) and len(r) == 4 and r[0] == "ext" and r[1] in ("numpy.zeros_like", "numpy.empty_like", "numpy.full_like", "numpy.ones_like") and r[2] and \
+            r[2][0][0] == "param" and r[2][0][1] in WEIGHT_PARAMS
+        # the same buffer spelled np.zeros(G.shape, dtype=int) / np.zeros((len(G), len(G)), dtype=int)
+        shaped_ = isinstance(r, tuple) and len(r) == 4 and r[0] == "ext" and r[1] in ("numpy.zeros", "numpy.empty", "numpy.ones", "numpy.full") and r[2] and \
+            [x for x in walk(r[2][0]) if isinstance(x, tuple) and len(x) == 2 and x[0] == "param" and x[1] in WEIGHT_PARAMS]
+        if (like_ or shaped_) and not f.name.startswith("_"):
             dt = dict((k, v) for k, v in r[3] if k != "$draw").get("dtype")
-            src = r[2][0]
+            if dt is None and shaped_ and len(r[2]) >= 2 and r[1] != "numpy.full":
+                dt = r[2][1]
+            src = r[2][0] if like_ else [x for x in walk(r[2][0]) if isinstance(x, tuple) and len(x) == 2 and x[0] == "param" and x[1] in WEIGHT_PARAMS][0]
             v_ = st.value
             from_src = isinstance(v_, tuple) and ((v_[0] == "sub" and v_[1] == src) or v_ == src)
             if dt is not None and dt not in FLOAT_TYPES and dt in NARROW_INT_TYPES and from_src:
